@@ -15,7 +15,7 @@ def check_100mib(chk):
     a = bs.BitArray(n)
     ones = [0, 8 * 100 * 1024 * 1024 - 1, 8 * 100 * 1024 * 1024, n - 1]
     a.set(1, ones)
-    d = tempfile.mkdtemp(prefix='verif_big_', dir='/dev/shm')
+    d = tempfile.mkdtemp(prefix='verif_big_', dir=('/dev/shm' if __import__('os').path.isdir('/dev/shm') else None))
     fn = os.path.join(d, 'big.bin')
     try:
         with open(fn, 'wb') as f:
